@@ -179,6 +179,34 @@ def slow_conversations(seed, n):
     return out
 
 
+def slow_http_conversations(seed, n):
+    """Polling / upgrading conversations on a network where every HTTP request and response
+    (and, every other time, every frame) takes 1-3 ticks: requests in flight across sends,
+    bursts above one payload, heartbeats and a disconnect by either side."""
+    rng = random.Random(seed)
+    out = []
+    for i in range(n):
+        sc = [{'op': 'connect', 'tr': ('poll', 'both', 'poll')[i % 3]}]
+        t = 0
+        for _ in range(rng.randint(5, 11)):
+            k = rng.choice(['tick', 'tick', 'csend', 'ssend', 'ssendburst', 'tick'])
+            if k == 'tick':
+                t += rng.choice([1, 1, 2, 3, 5, 9])
+                sc.append({'op': 'tick', 't': t})
+            else:
+                sc.append({'op': k, 'k': rng.choice([1, 2, 3, 17, 20, 33])})
+        t += 40
+        sc.append({'op': 'tick', 't': t})
+        sc.append({'op': 'csend', 'k': 2})
+        sc.append({'op': 'ssend', 'k': 2})
+        if i % 2:
+            sc.append({'op': rng.choice(['cdisc', 'sdisc'])})     # with the sends in flight
+        t += 300
+        sc.append({'op': 'tick', 't': t})
+        out.append(sc)
+    return out
+
+
 def run(tier):
     ck = Check('C10', tier)
     th = tier == 'thorough'
@@ -210,6 +238,9 @@ def run(tier):
                     ck.distinct([facts['pair'], tr0, pi, pt, [(o['op'], o.get('k'), o.get('t')) for o in sc]])
                     if facts['client_calls_blocked']:
                         blocked.append((metas[-1], facts['client_calls_blocked']))
+                    if facts['client_handlers_not_run']:
+                        blocked.append((metas[-1], ['%d message handlers never ran' %
+                                                    facts['client_handlers_not_run']]))
     # slow network: websocket frames spend 1-3 ticks on the wire, so that the upgrade handshake
     # overlaps heartbeat deadlines, sends and the clock
     for cimpl in ('sync', 'async'):
@@ -222,6 +253,20 @@ def run(tier):
                     metas.append({'pair': facts['pair'], 'transports': sc[0]['tr'], 'hb': [pi, pt],
                                   'latency': lat, 'script': sc})
                     ck.distinct([facts['pair'], 'slow', lat, pi, pt, k])
+                    if facts['client_calls_blocked']:
+                        blocked.append((metas[-1], facts['client_calls_blocked']))
+    for cimpl in ('sync', 'async'):
+        for simpl in ('sync', 'async'):
+            for hl, (pi, pt) in ((1, (8, 8)), (2, (8, 8)), (3, (16, 16))):
+                for k, sc in enumerate(slow_http_conversations(seed + 10 + hl, 6 if not th else 16)):
+                    scfg = {'ping_interval': pi, 'ping_timeout': pt, 'monitor': k % 2 == 0}
+                    lat = hl if k % 2 else 0
+                    steps, facts = e2e.run_conversation(cimpl, simpl, scfg, sc, seed=seed,
+                                                        latency=lat, http_latency=hl)
+                    traces.append(to_trace(steps))
+                    metas.append({'pair': facts['pair'], 'transports': sc[0]['tr'], 'hb': [pi, pt],
+                                  'latency': lat, 'http_latency': hl, 'script': sc})
+                    ck.distinct([facts['pair'], 'slowhttp', hl, pi, pt, k])
                     if facts['client_calls_blocked']:
                         blocked.append((metas[-1], facts['client_calls_blocked']))
     v = tracecheck.validate('EioE2ETrace', traces, constants={'MaxMsg': 100000}, batch=400)
@@ -273,8 +318,9 @@ def run(tier):
     ck.sample({'meta': metas[0], 'steps': traces[0][:3]})
     ck.cov['rule'] = ('case = one scripted conversation on one implementation pair / transport choice '
                       '/ heartbeat setting; distinct by that tuple and the script')
-    ck.assume('the network hands requests and frames over immediately and in order (no in-flight '
-              'reordering, no loss); every step runs to quiescence before the next application call')
+    ck.assume('the network is reliable and ordered per connection; in the slow conversations every '
+              'frame and / or every HTTP request and response spends 1-3 ticks on the wire, so that '
+              'application calls, heartbeats and the upgrade overlap traffic in flight')
     ck.assume('a disconnect initiated by one side reaches the other through the transport (CLOSE / '
               'socket closure) or, on polling when the client disconnects while its POST is in flight, '
               'through the heartbeat: the final clock advance lets both happen')
@@ -337,7 +383,8 @@ def replay(path):
     simpl = m['pair'].split('/')[1].split('-server')[0]
     steps, facts = e2e.run_conversation(cimpl, simpl, {'ping_interval': m['hb'][0],
                                                         'ping_timeout': m['hb'][1]}, m['script'],
-                                        latency=m.get('latency', 0))
+                                        latency=m.get('latency', 0),
+                                        http_latency=m.get('http_latency', 0))
     tr = to_trace(steps)
     v = tracecheck.validate('EioE2ETrace', [tr], constants={'MaxMsg': 100000})
     mode = MODE[m['transports']]
